@@ -43,7 +43,7 @@ static void options_default(options* o) {
   o->maxpix = 1u << 22;
   o->maxframes = 64;
   o->maxwork = 32u << 20;
-  o->ample = 1;
+  o->ample = 512;
   o->pixfmt = 0x81008888u;  // BGRA_NONPREMUL
   o->tracemax = 32;
 }
@@ -266,6 +266,8 @@ static void run_transformer(object* o, options* opt, const uint8_t* in, size_t i
   source_init(&src, in, in_len, opt->closed, opt->srcslack, &opt->prefill);
   dest_init(&dst, &opt->prefill);
   bool need_src = true, need_dst = true;
+  bool zdict_retried = false;
+  uint64_t force_cap = 0;
   {
     uint64_t n = opt->work;
     if (opt->work_auto) n = call_wlen(o->c, opt->via, o->mem).max_incl;
@@ -288,6 +290,11 @@ static void run_transformer(object* o, options* opt, const uint8_t* in, size_t i
     }
     if (need_dst) {
       uint64_t cap = sizelist_next(&opt->dst, 65536);
+      if (cap < force_cap) {
+        cap = force_cap;
+        names_add(&r->flags, "dst_grown_to_ample", (long)r->calls);
+      }
+      force_cap = 0;
       if (cap > (1u << 28)) cap = 1u << 28;
       wuffs_base__optional_u63 h = call_hist(o->c, opt->via, o->mem);
       uint64_t retain = wuffs_base__optional_u63__has_value(&h) ? wuffs_base__optional_u63__value(&h) : UINT64_MAX;
@@ -325,10 +332,17 @@ static void run_transformer(object* o, options* opt, const uint8_t* in, size_t i
     }
     if (is_short_write(st.repr)) {
       size_t room = db.data.len - db.meta.wi;
-      if (wrote == 0 && room > 0) {
-        names_add(&r->flags, "short_write_zero_progress", (long)r->calls);
-        if (room >= opt->ample && src.buf.meta.ri == sb.meta.ri)
+      if (wrote == 0 && src.buf.meta.ri == sb.meta.ri) {
+        // no progress at all: the destination was too small for this decoder (e.g. lzma wants 274
+        // bytes, cbor 2 tokens). Below `ample` that is the caller's fault: grow; at or above it is a
+        // violation: flag and stop instead of spinning.
+        if (room > 0) names_add(&r->flags, "short_write_zero_progress", (long)r->calls);
+        if (room >= opt->ample) {
           names_add(&r->flags, "short_write_with_empty_ample_dst", (long)r->calls);
+          r->status = "driver:no_progress";
+          break;
+        }
+        force_cap = opt->ample;
       }
       need_dst = true;
       continue;
@@ -355,6 +369,13 @@ static void run_transformer(object* o, options* opt, const uint8_t* in, size_t i
       work_resize(&wb, (size_t)n, &opt->prefill);
       continue;
     }
+    // (added for C07) zlib with a preset dictionary already supplied through zlib_dict=: the decoder still
+    // reports the note "@zlib: dictionary required" once, after the header; the documented protocol is to
+    // (add the dictionary and) call transform_io again.
+    if (opt->have_zdict && !zdict_retried && st.repr && !strcmp(st.repr, "@zlib: dictionary required")) {
+      zdict_retried = true;
+      continue;
+    }
     r->status = st.repr;
     break;
   }
@@ -371,6 +392,7 @@ static void run_tokens(object* o, options* opt, const uint8_t* in, size_t in_len
   workbuf wb = {0};
   source_init(&src, in, in_len, opt->closed, opt->srcslack, &opt->prefill);
   bool need_src = true;
+  uint64_t force_cap = 0;
   {
     uint64_t n = opt->work;
     if (opt->work_auto) n = call_wlen(o->c, opt->via, o->mem).max_incl;
@@ -392,6 +414,11 @@ static void run_tokens(object* o, options* opt, const uint8_t* in, size_t in_len
       need_src = false;
     }
     uint64_t cap = sizelist_next(&opt->dst, 4096);
+    if (cap < force_cap) {
+      cap = force_cap;
+      names_add(&r->flags, "dst_grown_to_ample", (long)r->calls);
+    }
+    force_cap = 0;
     if (cap > (1u << 22)) cap = 1u << 22;
     wuffs_base__token* tk = (wuffs_base__token*)xalloc((size_t)cap * sizeof(wuffs_base__token));
     if (opt->prefill.mode) pattern_fill(&opt->prefill, (uint8_t*)tk, (size_t)cap * sizeof(wuffs_base__token));
@@ -426,10 +453,14 @@ static void run_tokens(object* o, options* opt, const uint8_t* in, size_t in_len
       break;
     }
     if (is_short_write(st.repr)) {
-      if (wrote == 0 && cap > 0) {
-        names_add(&r->flags, "short_write_zero_progress", (long)r->calls);
-        if (cap >= opt->ample && src.buf.meta.ri == sb.meta.ri)
+      if (wrote == 0 && src.buf.meta.ri == sb.meta.ri) {
+        if (cap > 0) names_add(&r->flags, "short_write_zero_progress", (long)r->calls);
+        if (cap >= opt->ample) {
           names_add(&r->flags, "short_write_with_empty_ample_dst", (long)r->calls);
+          r->status = "driver:no_progress";
+          break;
+        }
+        force_cap = opt->ample;
       }
       continue;
     }
